@@ -74,6 +74,42 @@ func (m *Machine) sha256Of(in []*sym.Term) []*sym.Term {
 		for i := range out {
 			out[i] = m.nondet(fmt.Sprintf("sha256#%d[%d]", k, i), 8)
 		}
+		// extend the current model so that the consistency constraints below already hold:
+		// same transcript (under the model) as an earlier hash -> same output, otherwise a
+		// fresh output value. This avoids one solver query per constraint.
+		mod := make(sym.Model, len(m.model)+32)
+		for kk, vv := range m.model {
+			mod[kk] = vv
+		}
+		var copyFrom []*sym.Term
+		for _, r := range m.hashLog {
+			if len(r.in) != len(in) {
+				continue
+			}
+			same := true
+			for i := range in {
+				if sym.Eval(in[i], m.model, m.memo) != sym.Eval(r.in[i], m.model, m.memo) {
+					same = false
+					break
+				}
+			}
+			if same {
+				copyFrom = r.out
+				break
+			}
+		}
+		for i := range out {
+			if copyFrom != nil {
+				mod[out[i].Name] = sym.Eval(copyFrom[i], m.model, m.memo)
+			} else {
+				// distinct from natively computed digests with overwhelming likelihood and from other fresh ones by construction
+				mod[out[i].Name] = uint64((k*37 + i*11 + 0xA5) & 0xff)
+				if i < 2 {
+					mod[out[i].Name] = uint64((k >> (8 * uint(i))) & 0xff)
+				}
+			}
+		}
+		m.model = mod
 	}
 	eqAll := func(a, b []*sym.Term) *sym.Term {
 		r := c.True
@@ -101,7 +137,42 @@ func (m *Machine) sha256Of(in []*sym.Term) []*sym.Term {
 	return out
 }
 
+// hexChar maps a nibble (as an 8-bit term < 16) to its lower-case hex digit with a single ite
+// (instead of the 16-way ite chain of a table lookup with a symbolic index).
+func (m *Machine) hexChar(n *sym.Term) *sym.Term {
+	c := m.ctx
+	if n.IsConst() {
+		return c.Const(uint64("0123456789abcdef"[n.Val&15]), 8)
+	}
+	return c.Ite(c.Ult(n, c.Const(10, 8)), c.Add(n, c.Const('0', 8)), c.Add(n, c.Const('a'-10, 8)))
+}
+
+func (m *Machine) hexEncode(src []*sym.Term) []*sym.Term {
+	c := m.ctx
+	out := make([]*sym.Term, 0, 2*len(src))
+	for _, b := range src {
+		hi := c.Bin(sym.OLShr, b, c.Const(4, 8))
+		lo := c.Bin(sym.OBAnd, b, c.Const(15, 8))
+		out = append(out, m.hexChar(hi), m.hexChar(lo))
+	}
+	return out
+}
+
 func addHashIntrinsics(t map[string]intrinsic) {
+	t["encoding/hex.EncodeToString"] = func(m *Machine, fr *frame, a []Value) Value {
+		return Str{m.hexEncode(sliceTerms(a[0]))}
+	}
+	t["encoding/hex.Encode"] = func(m *Machine, fr *frame, a []Value) Value {
+		dst := a[0].(Slice)
+		enc := m.hexEncode(sliceTerms(a[1]))
+		if len(dst.A) < len(enc) {
+			m.runtimePanic("index out of range (hex.Encode: dst too small)")
+		}
+		for i, b := range enc {
+			dst.A[i] = b
+		}
+		return m.mkInt(int64(len(enc)), 64)
+	}
 	newDigest := func(m *Machine) Value {
 		dt := m.lookupType("crypto/sha256", "digest")
 		cell := new(Value)
